@@ -70,6 +70,17 @@ func TestC12(t *testing.T) {
 			logs[i] = g.Requests()
 		}
 		rp := func(l gen.Level, expect string) map[string]any { return w.CaseFile(l, nil, nil, nil, expect) }
+		// the same call again gives the same verdict (the verdict is a function of quote, options and fetched data)
+		for i, l := range levels {
+			for rep := 0; rep < 3; rep++ {
+				o := w.Options(l, w.NewGetter(), nil)
+				gen.Eval()
+				if v := gen.Call(func() error { return verify.RawTdxQuote(w.Raw, o) }); v.Short() != verdicts[i].Short() {
+					gen.Fail(t, gen.Violation{Key: "verdict-changes-between-identical-calls:" + f.Name, Oracle: "the verdict depends only on the quote, the option settings and the fetched data", Detail: fmt.Sprintf("fault=%s level=%s: first %s, then %s", f.Name, l, verdicts[i], v), Replay: rp(l, "nopanic")})
+					return
+				}
+			}
+		}
 		for i, v := range verdicts {
 			if v.Panicked() {
 				gen.Fail(t, gen.Violation{Key: "panic@" + gen.PanicSite(v.Stack), Oracle: "verification returns a verdict", Detail: fmt.Sprintf("fault=%s level=%s: %s", f.Name, levels[i], v.Panic), Replay: rp(levels[i], "nopanic")})
